@@ -1,4 +1,5 @@
 import Gaftools.Props.C03
+import Gaftools.Props.TieA
 #print axioms Gaftools.C03.recNodes_iff
 #print axioms Gaftools.C03.index_exact
 #print axioms Gaftools.C03.specIndex_model
@@ -7,3 +8,4 @@ import Gaftools.Props.C03
 #print axioms Gaftools.C03.searchIv_isSome
 #print axioms Gaftools.C03.selected_eq_overlaps
 #print axioms Gaftools.C03.refOf_sortedDisjoint
+#print axioms Gaftools.TieA.isStable_gen_eq_model
